@@ -51,12 +51,20 @@ def line(i):
     return b"%063d\n" % i
 
 
+_SRC_LOCK = __import__("threading").Lock()
+
+
 def src_file(d, idx, count):
-    """file of `count` lines "%063d" of the ids idx*2^24 + j"""
+    """file of `count` lines "%063d" of the ids idx*2^24 + j (created once, atomically: cases run in parallel)"""
     p = os.path.join(d, "src_%d_%d" % (idx, count))
-    if not d.startswith("$") and not os.path.exists(p):
-        with open(p, "wb") as f:
-            f.write(b"".join(line(idx * BASE + j) for j in range(count)))
+    if d.startswith("$"):
+        return p
+    with _SRC_LOCK:
+        if not os.path.exists(p):
+            tmp = p + ".tmp"
+            with open(tmp, "wb") as f:
+                f.write(b"".join(line(idx * BASE + j) for j in range(count)))
+            os.rename(tmp, p)
     return p
 
 
